@@ -36,7 +36,10 @@ def emitEv (wname topic : String) (pid : Option Nat) (extra : String) : M Unit :
 def emitRep (cid : String) (id : JVal) (status errno body : String) : M Unit :=
   modS fun s => if s.blocked then s else { s with log := s.log ++ [Obs.rep cid id status errno body] }
 def getK : M Kernel := fun s => (s.k, s)
-def setK (k : Kernel) : M Unit := modS fun s => { s with k := k }
+/-- the only way the kernel component is written (besides `spawnAdopt` and `fireSleeper`): a
+    kernel function runs on it -/
+def runK {α : Type} (f : Kernel → Kernel × α) : M α := fun s => ((f s.k).2, { s with k := (f s.k).1 })
+def updK (f : Kernel → Kernel) : M Unit := runK fun k => (f k, ())
 
 def wstatSig (sig : Nat) : Nat := sig % 128
 def wstatExit (code : Nat) : Nat := (code % 256) * 256
@@ -196,43 +199,22 @@ end Kernel
 /-! monadic wrappers that also write the ghost log, like the harness' `Kernel.out` -/
 
 def kKill (pid sig : Nat) (via : String := "") : M Bool := do
-  let k ← getK
-  let (k', st) := k.kill pid sig
-  setK k'
+  let st ← runK fun k => k.kill pid sig
   emit (.sig pid sig st via)
   pure (st ≠ .gone)
 
 def kWaitpid (pid : Option Nat) : M Kernel.WaitRes := do
-  let k ← getK
-  let (k', r) := k.waitpid pid
-  setK k'
+  let r ← runK fun k => k.waitpid pid
   match r with
   | .got p st => emit (.reap p st)
   | _ => pure ()
   pure r
 
-def kStateOf (pid : Nat) : M PState := do
-  let k ← getK
-  let (k', r) := k.stateOf pid
-  setK k'
-  pure r
+def kStateOf (pid : Nat) : M PState := runK fun k => k.stateOf pid
 
-def kChildren (pid : Nat) (recursive : Bool) : M (Option (List Nat)) := do
-  let k ← getK
-  let (k', r) := k.children pid recursive
-  setK k'
-  pure r
+def kChildren (pid : Nat) (recursive : Bool) : M (Option (List Nat)) := runK fun k => k.children pid recursive
 
-def kSpawn : M (Option Nat) := do
-  let k ← getK
-  let (k', r) := k.spawn
-  setK k'
-  if r.isNone then emit .execfail
-  pure r
-
-def kSleep (ms : Nat) : M Unit := do
-  let k ← getK
-  setK (k.sleep ms)
+def kSleep (ms : Nat) : M Unit := updK fun k => k.sleep ms
 
 def nowMs : M Nat := do
   let k ← getK
